@@ -244,31 +244,36 @@ def verilog_text(prog, rng, comments=True, noise=0.15, group_gates=True, ports=N
         return ("," + ws(rng)).join(ident(n) for n in ns)
 
     stm = []
-    for it in prog["items"]:
+    for idx, it in enumerate(prog["items"]):
         if it["k"] == "gate":
             args = [ident(it["out"])] + [unparse(e, rng, 0, noise) for e in it["ins"]]
-            stm.append(("g", it["t"], "g%d" % len(stm) + ws(rng) + "(" + ws(rng) + ("," + ws(rng)).join(args) + ws(rng) + ")"))
+            stm.append(("g", it["t"], "g%d" % len(stm) + ws(rng) + "(" + ws(rng) + ("," + ws(rng)).join(args) + ws(rng) + ")", idx))
         elif it["k"] == "assign":
-            stm.append(("a", None, "assign" + ws(rng, True) + ident(it["lhs"]) + ws(rng) + "=" + ws(rng) + unparse(it["rhs"], rng, 0, noise)))
+            stm.append(("a", None, "assign" + ws(rng, True) + ident(it["lhs"]) + ws(rng) + "=" + ws(rng) + unparse(it["rhs"], rng, 0, noise), idx))
         else:
             cs = []
             for p, e in it["conns"]:
                 cs.append("." + p + ws(rng) + "(" + ("" if e is None else unparse(e, rng, 0, noise)) + ")")
-            stm.append(("b", it["type"], it["type"] + ws(rng, True) + it["inst"] + ws(rng) + "(" + ("," + ws(rng)).join(cs) + ")"))
+            stm.append(("b", it["type"], it["type"] + ws(rng, True) + it["inst"] + ws(rng) + "(" + ("," + ws(rng)).join(cs) + ")", idx))
     rng.shuffle(stm)
     # several primitive instances of the same type in one statement
     lines = []
     i = 0
+    line_items = {}
     while i < len(stm):
-        k, t, s = stm[i]
+        k, t, s, idx = stm[i]
         if k == "g":
             grp = [s]
+            idxs = [idx]
             while group_gates and i + 1 < len(stm) and stm[i + 1][0] == "g" and stm[i + 1][1] == t and rng.random() < 0.5:
                 i += 1
                 grp.append(stm[i][2])
+                idxs.append(stm[i][3])
             lines.append(t + ws(rng, True) + ("," + ws(rng)).join(grp) + ws(rng) + ";")
         else:
             lines.append(s + ws(rng) + ";")
+            idxs = [idx]
+        line_items[id(lines[-1])] = idxs
         i += 1
     decls = []
     for kw, ns in (("input", prog["inputs"]), ("output", prog["outputs"]), ("wire", prog["wires"])):
@@ -292,9 +297,12 @@ def verilog_text(prog, rng, comments=True, noise=0.15, group_gates=True, ports=N
         if n not in seen:
             seen.append(n)
     txt = cm() + "module" + ws(rng, True) + prog["name"] + ws(rng) + "(" + ws(rng) + idl(seen) + ws(rng) + ");" + cm() + "\n"
+    text_order = []
     for b in body:
         txt += ws(rng) + b + cm() + "\n"
+        text_order += line_items.get(id(b), [])
     txt += "endmodule\n" + cm()
+    prog["_text_order"] = text_order        # item indices in the order the statements appear in the text
     return txt
 
 
